@@ -159,6 +159,52 @@ def run(ctx):
                         checks.append((inp, rows_f))
         finally:
             tree.close()
+    # ---- histories: an entry that is unservable at one listing and servable at the next (its target appears outside the
+    # directory, so the directory itself does not change), and the reverse; one server process throughout.  Each listing is
+    # the listing of a twin directory that has been in that state from the start and was never listed before.
+    tree = pyg.Tree()
+    try:
+        def populate(d, link_ok):
+            for n in HEALTHY:
+                if n == "c dir":
+                    tree.write(d + "/c dir/inner.txt", b"i")
+                elif n.endswith("html"):
+                    tree.write(d + "/" + n, b"<html><head><title>M page</title></head></html>")
+                else:
+                    tree.write(d + "/" + n, b"content\n")
+            os.mkfifo(tree.path(d + "/pipe"))
+            os.symlink("../store-" + d + "/k.txt", tree.path(d + "/k-link.txt"))
+            tree.mkdir("store-" + d)
+            if link_ok:
+                tree.write("store-" + d + "/k.txt", b"kept elsewhere\n")
+        populate("g", False)
+        populate("twin-broken", False)
+        populate("twin-ok", True)
+        for hname, handlers in (("umn", None), ("dir", pyg.DIR_HANDLERS)):
+            cfg = pyg.make_config(tree.root, handlers, **{"handlers.dir.DirHandler|cachetime": "0"})
+            for view, gplus in listing.VIEWS[:4]:
+                steps = []
+                for step, fix in (("dangling", None), ("target created", True), ("target created, again", None), ("target removed", False), ("target back", True)):
+                    if fix is True:
+                        tree.write("store-g/k.txt", b"kept elsewhere\n")
+                    elif fix is False:
+                        os.unlink(tree.path("store-g/k.txt"))
+                    ok_now = os.path.exists(tree.path("g/k-link.txt"))
+                    twin = "twin-ok" if ok_now else "twin-broken"
+                    rows_g, rg = listing.real_rows(view, gplus, cfg, "/g")
+                    rows_t, rt = listing.real_rows(view, gplus, cfg, "/" + twin)
+                    res.evaluations += 2
+                    steps.append(step)
+                    want = None if rows_t is None else rows_t.replace(b"/" + twin.encode() + b"/", b"/g/").replace(b"/" + twin.encode() + b"%", b"/g%")
+                    res.nontrivial.add(("history", hname, view, gplus, step))
+                    if rows_g is None or rows_g != want:
+                        res.violation("C12:entries-lost:history:" + hname, "after an entry's servability changed the listing is not that of a directory in the new state",
+                                      {"handler": hname, "view": view, "gplus": gplus, "history": list(steps)},
+                                      observed=(rows_g or b"")[:400], required=(want or b"")[:400],
+                                      replay={"faults": ["history"], "view": view, "gplus": gplus, "handler": hname, "history": list(steps)})
+                os.unlink(tree.path("store-g/k.txt"))
+    finally:
+        tree.close()
     outs = ctx.driver.run(model_lines)
     for (inp, impl), o in zip(checks, outs):
         res.evaluations += 1
